@@ -43,6 +43,9 @@ impl Rng {
     pub fn u16(&mut self) -> u16 {
         self.next() as u16
     }
+    pub fn s(&mut self, items: &[&'static str]) -> &'static str {
+        items[self.below(items.len() as u64) as usize]
+    }
     pub fn pick<'a, T>(&mut self, items: &'a [T]) -> &'a T {
         &items[self.below(items.len() as u64) as usize]
     }
@@ -215,6 +218,8 @@ pub struct Collector {
     pub inconclusive: BTreeMap<String, u64>,
     pub extra: Vec<(String, J)>,
     pub exhaustive: bool,
+    /// (seconds, case index) of the slowest case
+    pub slowest: (f64, u64),
 }
 
 impl Collector {
@@ -230,6 +235,7 @@ impl Collector {
             inconclusive: BTreeMap::new(),
             extra: Vec::new(),
             exhaustive: false,
+            slowest: (0.0, 0),
         }
     }
     pub fn add(&mut self, out: CaseOut) {
@@ -325,9 +331,19 @@ impl Collector {
                     .collect()),
             ),
             ("extra".into(), J::O(self.extra.clone())),
+            (
+                "slowest_case".into(),
+                J::obj(vec![("seconds", J::F(self.slowest.0)), ("case", J::I(self.slowest.1 as i64))]),
+            ),
         ])
     }
 }
+
+/// Where the result document goes; the watchdog writes `<path>.stuck` next to it.
+pub static OUT_PATH: std::sync::OnceLock<String> = std::sync::OnceLock::new();
+/// Wall-clock seconds after which a single case is *nominated* as non-terminating. The verdict
+/// is never taken from this: the driver re-runs the nominated case under a CPU-time limit.
+pub const STUCK_AFTER_S: u64 = 45;
 
 /// Run `n` cases over a worker pool; every case runs on its own fresh thread (lace keeps its
 /// symbol table and feature flags in thread-locals).
@@ -335,26 +351,86 @@ pub fn run_cases<F>(n: u64, only: Option<u64>, threads: usize, col: &mut Collect
 where
     F: Fn(u64) -> CaseOut + Send + Sync,
 {
-    use std::sync::atomic::{AtomicU64, Ordering};
+    run_cases_impl(n, only, threads, col, f, true)
+}
+
+/// Same, but the case closure runs directly on the worker thread (for monitors which spawn
+/// their own fresh threads around every call into lace).
+pub fn run_cases_plain<F>(n: u64, only: Option<u64>, threads: usize, col: &mut Collector, f: F)
+where
+    F: Fn(u64) -> CaseOut + Send + Sync,
+{
+    run_cases_impl(n, only, threads, col, f, false)
+}
+
+fn run_cases_impl<F>(n: u64, only: Option<u64>, threads: usize, col: &mut Collector, f: F, fresh: bool)
+where
+    F: Fn(u64) -> CaseOut + Send + Sync,
+{
+    use std::sync::atomic::{AtomicBool, AtomicU64, Ordering};
     use std::sync::Mutex;
-    if let Some(i) = only {
-        let out = run_on_fresh_thread(&f, i);
-        col.add(out);
-        return;
-    }
+    let threads = threads.max(1);
     let next = AtomicU64::new(0);
+    let done = AtomicBool::new(false);
+    let t0 = std::time::Instant::now();
+    // per worker: (case index + 1 or 0 when idle, start in ms since t0)
+    let active: Vec<(AtomicU64, AtomicU64)> =
+        (0..threads).map(|_| (AtomicU64::new(0), AtomicU64::new(0))).collect();
     let shared = Mutex::new(std::mem::replace(col, Collector::new()));
     std::thread::scope(|scope| {
-        for _ in 0..threads.max(1) {
-            scope.spawn(|| loop {
-                let i = next.fetch_add(1, Ordering::Relaxed);
-                if i >= n {
-                    break;
+        // watchdog
+        scope.spawn(|| {
+            while !done.load(Ordering::Relaxed) {
+                std::thread::sleep(std::time::Duration::from_millis(200));
+                let now = t0.elapsed().as_millis() as u64;
+                for (case, start) in &active {
+                    let c = case.load(Ordering::Relaxed);
+                    if c != 0 && now.saturating_sub(start.load(Ordering::Relaxed)) > STUCK_AFTER_S * 1000 {
+                        if let Some(path) = OUT_PATH.get() {
+                            let _ = std::fs::write(format!("{}.stuck", path), format!("{}", c - 1));
+                        }
+                        std::process::exit(3);
+                    }
                 }
-                let out = run_on_fresh_thread(&f, i);
-                shared.lock().unwrap().add(out);
-            });
+            }
+        });
+        let workers: Vec<_> = (0..threads)
+            .map(|w| {
+                let (next, active, shared, f) = (&next, &active, &shared, &f);
+                scope.spawn(move || loop {
+                    let i = match only {
+                        Some(i) => {
+                            if next.fetch_add(1, Ordering::Relaxed) != 0 {
+                                break;
+                            }
+                            i
+                        }
+                        None => {
+                            let i = next.fetch_add(1, Ordering::Relaxed);
+                            if i >= n {
+                                break;
+                            }
+                            i
+                        }
+                    };
+                    let start = std::time::Instant::now();
+                    active[w].1.store(t0.elapsed().as_millis() as u64, Ordering::Relaxed);
+                    active[w].0.store(i + 1, Ordering::Relaxed);
+                    let out = if fresh { run_on_fresh_thread(f, i) } else { f(i) };
+                    active[w].0.store(0, Ordering::Relaxed);
+                    let dt = start.elapsed().as_secs_f64();
+                    let mut col = shared.lock().unwrap();
+                    if dt > col.slowest.0 {
+                        col.slowest = (dt, i);
+                    }
+                    col.add(out);
+                })
+            })
+            .collect();
+        for w in workers {
+            let _ = w.join();
         }
+        done.store(true, Ordering::Relaxed);
     });
     *col = shared.into_inner().unwrap();
 }
@@ -365,7 +441,7 @@ where
 {
     std::thread::scope(|scope| {
         let handle = std::thread::Builder::new()
-            .stack_size(16 << 20)
+            .stack_size(8 << 20)
             .spawn_scoped(scope, || f(i))
             .expect("spawn case thread");
         match handle.join() {
